@@ -294,7 +294,22 @@ func runGenesis(r *hx.R, n int, w *hx.W, _ []string) error {
 					ok.SetPrice(ctx, asset.MustNewPair("unibi:uusd"), sdkmath.LegacyNewDecWithPrec(r.Range(1, 99999), 3))
 					ok.FeederDelegations.Insert(ctx, val, deps.Sender.NibiruAddr)
 					ok.MissCounters.Insert(ctx, val, uint64(r.Range(0, 20)))
-					ok.Prevotes.Insert(ctx, val, oracletypes.NewAggregateExchangeRatePrevote(oracletypes.AggregateVoteHash([]byte{1, 2, 3}), val, uint64(ctx.BlockHeight())))
+					// a pending prevote: submitted in this vote period or anywhere in the previous one (both are still revealable /
+					// not yet swept), with a short vote period so that the export can fall several periods into the chain
+					op, _ := ok.Params.Get(ctx)
+					if r.Chance(2, 3) {
+						op.VotePeriod = uint64(r.Range(2, 8))
+						ok.Params.Set(ctx, op)
+						ctx = ctx.WithBlockHeight(ctx.BlockHeight() + r.Range(0, 20))
+						deps.Ctx = ctx
+					}
+					h, vp := ctx.BlockHeight(), int64(op.VotePeriod)
+					lo := (h/vp - 1) * vp
+					if lo < 0 {
+						lo = 0
+					}
+					submit := lo + r.Range(0, h-lo)
+					ok.Prevotes.Insert(ctx, val, oracletypes.NewAggregateExchangeRatePrevote(oracletypes.AggregateVoteHash([]byte{1, 2, 3}), val, uint64(submit)))
 					if r.Chance(1, 2) {
 						ok.Votes.Insert(ctx, val, oracletypes.NewAggregateExchangeRateVote(oracletypes.ExchangeRateTuples{{Pair: asset.MustNewPair("unibi:uusd"), ExchangeRate: sdkmath.LegacyNewDec(r.Range(1, 50))}}, val))
 					}
